@@ -6,6 +6,7 @@ from core import enc, q
 from gen import canonical_names, basename
 
 ID = "C04"
+HEAP_SUMMARY = True      # end every program with the reference-level observation (BB.Model.Heap vs id() walk)
 LEAN_MODULE = "BB.Properties.C04"
 QUICK_N = 300
 THOROUGH_N = 6000
